@@ -18,6 +18,9 @@ PROPERTY = "C09"
 LEVEL = "exploration"
 USES_JAX = True
 CLEAR_EVERY = 8
+# every work item runs in a fresh worker process: a defect that keeps state between calls then behaves the same in the pool
+# and when the item is replayed alone (the replay gate needs that)
+RECYCLE_AFTER = 1
 BUDGET_S = {"quick": 3600, "thorough": 14400}  # generous wall-clock guards (shared machine); CPU time is what is reported
 RULE = (
     "complete product routine (24: the 11 step-granular off-policy routines of vlib/drivers.py, REINFORCE, actor-critic, "
